@@ -138,5 +138,35 @@ Proof.
   - simpl. apply IH.
 Qed.
 
+(** * what observational equality is good for: every verdict the C12 theorems are about reads only the fields it preserves *)
+Lemma obs_verdicts n a b : obs_eq a b ->
+  clean n a = clean n b /\
+  (forall i, arg_mutated a i = arg_mutated b i) /\ (forall i, arg_retained a i = arg_retained b i) /\
+  (forall i, arg_returned a i = arg_returned b i) /\ (forall i, arg_exposed a i = arg_exposed b i) /\
+  rw_store a = rw_store b /\ ro_store a = ro_store b /\ rw_self a = rw_self b /\ exp_store a = exp_store b.
+Proof.
+  intros (H1 & H2 & H3 & H4 & H5 & H6 & _).
+  unfold clean, arg_mutated, arg_retained, arg_returned, arg_exposed, rw_store, ro_store, rw_self, exp_store.
+  rewrite H2, H3, H4, H5, H6. repeat split; reflexivity.
+Qed.
+
+(** ... so an entry point that validates its arguments and then runs ANY continuation gets the same verdict whether the validators are
+    the model's or the ones read from the current source *)
+Theorem gen_validate_single_same_verdict : forall n sol obj meas (rest : list instr) a,
+  clean n (arun rest (arun (prog_of sol gen_single_solution ++ prog_of obj gen_single_objective ++ prog_of meas gen_single_measures) a)) =
+  clean n (arun rest (arun (validate_single sol obj meas) a)).
+Proof.
+  intros. apply obs_verdicts. apply arun_obs. apply gen_validate_single_is_model.
+Qed.
+
+Theorem gen_validate_batch_same_verdict : forall n regs (rest : list instr) a,
+  clean n (arun rest (arun (flat_map (fun kr => prog_of (snd kr) (gen_batch_conv (fst kr))) (combine (seq 0 (length regs)) regs)) a)) =
+  clean n (arun rest (arun (validate_batch regs) a)).
+Proof.
+  intros. apply obs_verdicts. apply arun_obs. apply gen_validate_batch_is_model.
+Qed.
+
 Print Assumptions gen_validate_single_is_model.
+Print Assumptions gen_validate_single_same_verdict.
+Print Assumptions gen_validate_batch_same_verdict.
 Print Assumptions gen_validate_batch_is_model.
